@@ -18,6 +18,7 @@ type Exec struct {
 	Fails    []Failure
 	Notes    []string
 	Deadlock bool
+	Livelock bool
 	Blocked  string
 	Diverged string
 }
@@ -97,8 +98,13 @@ func runBubble(t *testing.T, cfg Config, prefix []int, verbose bool, body func(s
 		x.Trace = s.Trace
 		x.Steps = s.Steps
 		x.Fails = s.fails
+		if s.Livelock && len(x.Fails) == 0 {
+			// never let a non-quiescing execution pass silently when the harness body does not look at it
+			x.Fails = append(x.Fails, Failure{Key: "livelock-step-horizon", Detail: "threads were still enabled after the step horizon: the code under test never quiesces in this execution"})
+		}
 		x.Notes = s.notes
 		x.Deadlock = s.Deadlock
+		x.Livelock = s.Livelock
 		x.Diverged = s.Diverged
 		if s.Deadlock {
 			x.Blocked = s.Blocked()
